@@ -16,10 +16,12 @@ func init() {
 		{"C01", "unindexed-no-copy", "C01.c", ux, "msg.PopulateFrom(record, true)", "msg.PopulateFrom(record, false)", "PopulateFrom"},
 		{"C01", "attachment-index-fields-swapped-both-sides", "C01.a", w, "offset += putUint64(w.msg[offset:], idx.LogTime)\n\toffset += putUint64(w.msg[offset:], idx.CreateTime)\n\toffset += putUint64(w.msg[offset:], idx.DataSize)", "offset += putUint64(w.msg[offset:], idx.CreateTime)\n\toffset += putUint64(w.msg[offset:], idx.LogTime)\n\toffset += putUint64(w.msg[offset:], idx.DataSize)", "layout of AttachmentIndex"},
 		{"C01", "binding-wrong-key", "C01.d", ux, "schema := it.schemas.Get(channel.SchemaID)", "schema := it.schemas.Get(channel.ID)", "schema of the yielded message"},
+		{"C01", "lexer-owned-token-buffer", "C01.c", lx, "\t\t\tp, err = makeSafe(recordLen)\n\t\t\tif err != nil {\n\t\t\t\treturn TokenError, nil, fmt.Errorf(\"failed to allocate %d bytes for %s token: %w\", recordLen, opcode, err)\n\t\t\t}", "\t\t\tif uint64(cap(l.uncompressedChunk)) < recordLen {\n\t\t\t\tl.uncompressedChunk, err = makeSafe(recordLen)\n\t\t\t\tif err != nil {\n\t\t\t\t\treturn TokenError, nil, err\n\t\t\t\t}\n\t\t\t}\n\t\t\tp = l.uncompressedChunk[:cap(l.uncompressedChunk)]", "returned token bytes"},
 		// C02
 		{"C02", "gate-ignores-channels", "C02.a", "go/mcap/mcap.go", "return len(i.Channels) > 0", "return true", "gate does not consult Info.Channels"},
 		{"C02", "attachment-offset-convention", "C02.d", "go/mcap/reader.go", "r.rs.Seek(int64(offset+9), io.SeekStart)", "r.rs.Seek(int64(offset+8), io.SeekStart)", "seek to index offset + 9"},
 		{"C02", "slot-aliases-read-buffer", "C02.o", ix, "copy(chunkSlot.buf, parsedChunk.Records)", "chunkSlot.buf = parsedChunk.Records[:bufSize]", "chunkSlot.buf"},
+		{"C02", "conditional-seek", "C02.k", ix, "\terr := it.seekTo(chunkIndex.ChunkStartOffset)\n\tif err != nil {\n\t\treturn err\n\t}", "\tvar err error\n\tif chunkIndex.ChunkStartOffset != 0 {\n\t\terr = it.seekTo(chunkIndex.ChunkStartOffset)\n\t\tif err != nil {\n\t\t\treturn err\n\t\t}\n\t}", "read of the shared stream"},
 		// C03
 		{"C03", "unstable-sort", "C03.a", ix, "sort.SliceStable(unreadMessageIndexes, func(i, j int) bool {\n\t\t\t\treturn unreadMessageIndexes[i].timestamp < unreadMessageIndexes[j].timestamp", "sort.Slice(unreadMessageIndexes, func(i, j int) bool {\n\t\t\t\treturn unreadMessageIndexes[i].timestamp < unreadMessageIndexes[j].timestamp", "sort of the message queue"}, // (S)
 		{"C03", "non-strict-comparator", "C03.b", ix, "return unreadMessageIndexes[i].timestamp > unreadMessageIndexes[j].timestamp", "return unreadMessageIndexes[i].timestamp >= unreadMessageIndexes[j].timestamp", "comparator"},
@@ -29,11 +31,13 @@ func init() {
 		{"C04", "inclusive-end", "C04.a", ux, "beforeEnd(msg.LogTime, it.end)", "msg.LogTime <= it.end", "window predicate"},
 		{"C04", "pruning-too-strong", "C04.b", ix, "idx.MessageEndTime >= it.start", "idx.MessageEndTime > it.start", "chunk pruning condition"}, // (S)
 		{"C04", "option-dead-field", "C04.d", "go/mcap/reader_options.go", "if err := BeforeNanos(uint64(end))(ro); err != nil {\n\t\t\treturn err\n\t\t}\n\t\tro.End = end", "ro.End = end", "mcap.Before"},
+		{"C04", "finalize-defaults-end", "C04.g", "go/mcap/reader_options.go", "\tif ro.EndNanos == 0 && ro.End > 0 {\n\t\tro.EndNanos = uint64(ro.End)\n\t}", "\tif ro.EndNanos == 0 && ro.End > 0 {\n\t\tro.EndNanos = uint64(ro.End)\n\t} else if ro.EndNanos == 0 {\n\t\tro.EndNanos = math.MaxUint64\n\t}", "store to ReadOptions.EndNanos"},
 		// C05
 		{"C05", "metadata-offset-after-write", "C05.b", w, "metadataOffset := w.w.Size()\n\tc, err := w.writeRecord(w.w, OpMetadata, w.msg[:offset])\n\tif err != nil {\n\t\treturn err\n\t}", "c, err := w.writeRecord(w.w, OpMetadata, w.msg[:offset])\n\tif err != nil {\n\t\treturn err\n\t}\n\tmetadataOffset := w.w.Size()", "MetadataIndex.Offset"},
 		{"C05", "group-length-not-subtracted", "C05.c", w, "GroupLength: w.w.Size() - statisticsOffset,", "GroupLength: w.w.Size(),", "GroupLength(OpStatistics)"}, // (S)
 		{"C05", "size-reset-before-read", "C05.d", w, "\tcrc := w.compressedWriter.CRC()\n\tuncompressedlen := w.compressedWriter.Size()", "\tcrc := w.compressedWriter.CRC()\n\tw.compressedWriter.ResetSize()\n\tuncompressedlen := w.compressedWriter.Size()", "uncompressed size read before it is reset"},
 		{"C05", "chunk-index-fields-swapped", "C05.a", w, "offset += putUint64(w.msg[offset:], idx.ChunkStartOffset)\n\toffset += putUint64(w.msg[offset:], idx.ChunkLength)", "offset += putUint64(w.msg[offset:], idx.ChunkLength)\n\toffset += putUint64(w.msg[offset:], idx.ChunkStartOffset)", "layout of ChunkIndex"},
+		{"C05", "prefix-from-capacity", "C05.p", w, "datalen := len(idx.Entries()) * (8 + 8)", "datalen := len(idx.Records) * (8 + 8)", "length prefix vs emitting loop"},
 		// C06
 		{"C06", "reset-before-dataend", "C06.b", w, "\tw.closed = true\n\terr := w.WriteDataEnd(&DataEnd{", "\tw.closed = true\n\tw.w.ResetCRC()\n\terr := w.WriteDataEnd(&DataEnd{", "CRC reset"}, // order a/b: the first ResetCRC precedes DataEnd
 		{"C06", "attachment-prefix-through-crc", "C06.d", w, "\t_, err = w.w.Write(w.msg[:9])\n\tif err != nil {\n\t\treturn err\n\t}\n\tcrcWriter := newCRCWriter(w.w)", "\tcrcWriter := newCRCWriter(w.w)\n\t_, err = crcWriter.Write(w.msg[:9])\n\tif err != nil {\n\t\treturn err\n\t}", "attachment CRC scope"},
@@ -47,6 +51,7 @@ func init() {
 		{"C08", "unguarded-chunk-fold", "C08.b", w, "if w.Statistics.MessageCount == 0 && (c.MessageStartTime != 0 || c.MessageEndTime != 0) {", "if w.Statistics.MessageCount == 0 {", "fold of chunk times"},
 		// C09
 		{"C09", "raw-read-of-record", "C09.b", lx, "readLength, err = io.ReadFull(l.reader, record)", "readLength, err = l.reader.Read(record)", "with record"},
+		{"C09", "short-chunk-read-tolerated", "C09.f", lx, "\t\t_, err := io.ReadFull(l.reader, l.uncompressedChunk[:uncompressedSize])\n\t\tif err != nil {", "\t\t_, err := io.ReadFull(l.reader, l.uncompressedChunk[:uncompressedSize])\n\t\tif err != nil && !errors.Is(err, io.ErrUnexpectedEOF) {", "consumers of Lexer.uncompressedChunk"},
 		// C10
 		{"C10", "makesafe-to-make", "C10.a", ix, "buf, err = makeSafe(recordLen)\n\t\tif err != nil {\n\t\t\treturn 0, nil, fmt.Errorf(\"failed to allocate record buffer: %w\", err)\n\t\t}", "buf = make([]byte, recordLen)", "mcap.readRecord"},
 		{"C10", "parsechunk-guard-removed", "C10.a", pr, "\tif uint64(len(buf)-offset) < recordsLength {\n\t\treturn nil, fmt.Errorf(\"short chunk records: %w\", io.ErrShortBuffer)\n\t}\n", "", "mcap.ParseChunk"},
@@ -74,9 +79,61 @@ func init() {
 		{"C18", "log-fatal", "C18.a", "go/ros/bag2mcap.go", "\t\t\treturn errors.New(\"not a bag\")", "\t\t\tpanic(\"not a bag\")", "panic call"},
 		{"C18", "field-length-guard-removed", "C18.b", "go/ros/bag2mcap.go", "\t\tif uint64(fieldlen) > uint64(len(header)-offset) {\n\t\t\treturn nil, fmt.Errorf(\"field length %d exceeds header\", fieldlen)\n\t\t}\n\t\tfield := header[offset : offset+int(fieldlen)]", "\t\tfield := header[offset : offset+int(fieldlen)]", "ros.extractHeaderValue"},
 		{"C18", "rows-err-dropped", "C18.c", "go/ros/ros2db3_to_mcap.go", "\tif err := rows.Err(); err != nil {\n\t\treturn nil, err\n\t}\n\treturn topics, nil", "\treturn topics, nil", "rows.Err after rows.Next loop"},
+		{"C18", "schema-name-from-deleted-key", "C18.u", "go/ros/bag2mcap.go", "\t\t\t\t\tName:     typ,\n", "\t\t\t\t\tName:     connectionDataHeader[\"type\"],\n", "lookups of"},
 		// C19
 		{"C19", "cycle-guard-removed", "C19.a", "go/ros/ros1msg/ros1msg_parser.go", "\t\t\tif resolving[dependencyName] {\n\t\t\t\treturn nil, fmt.Errorf(\"type %s refers to itself\", dependencyName)\n\t\t\t}\n", "", "recursive call"},
 		{"C19", "bracket-order-guard-removed", "C19.b", "go/ros/ros1msg/ros1msg_parser.go", "\tif rightBracketIndex < leftBracketIndex {\n\t\treturn false, \"\", 0\n\t}\n", "", "slice s["},
+		{"C19", "field-state-hoisted", "C19.l", "go/ros/ros1msg/ros1msg_parser.go", `	fields := []Field{}
+	for i, line := range strings.Split(subdefinition, "\n") {
+		line := strings.TrimSpace(line)
+		// empty line
+		if line == "" {
+			continue
+		}
+		// comment
+		if strings.HasPrefix(line, "#") {
+			continue
+		}
+		// constant
+		if strings.Contains(strings.Split(line, "#")[0], "=") {
+			continue
+		}
+
+		// must be a field
+		matches := fieldMatcher.FindStringSubmatch(line)
+		if len(matches) < 3 {
+			return nil, fmt.Errorf("malformed field on line %d: %s", i, line)
+		}
+		fieldType := matches[1]
+		fieldName := matches[2]
+
+		var isRecord bool
+`, `	var isRecord bool
+	fields := []Field{}
+	for i, line := range strings.Split(subdefinition, "\n") {
+		line := strings.TrimSpace(line)
+		// empty line
+		if line == "" {
+			continue
+		}
+		// comment
+		if strings.HasPrefix(line, "#") {
+			continue
+		}
+		// constant
+		if strings.Contains(strings.Split(line, "#")[0], "=") {
+			continue
+		}
+
+		// must be a field
+		matches := fieldMatcher.FindStringSubmatch(line)
+		if len(matches) < 3 {
+			return nil, fmt.Errorf("malformed field on line %d: %s", i, line)
+		}
+		fieldType := matches[1]
+		fieldName := matches[2]
+
+`, "Type.IsRecord built per field"},
 		// C20
 		{"C20", "decrement-removed", "C20.b", ix, "\t\tchunkSlot.unreadMessages--\n", "", "unreadMessages--"}, // (S)
 		{"C20", "attachment-readall", "C20.a", w, "bytesWritten, err := io.Copy(crcWriter, a.Data)", "all, err := io.ReadAll(a.Data)\n\tif err != nil {\n\t\treturn err\n\t}\n\tn, err := crcWriter.Write(all)\n\tbytesWritten := int64(n)", "attachment source is only streamed"},
